@@ -146,6 +146,29 @@ def make_sf(mode, words, nguess):
     return scared.reverse_selection_function(sf, words=w)
 
 
+def expected_data(scn, model, pt):
+    """model(selection function output) for these metadata rows, computed WITHOUT scared's SelectionFunction wrapper: the raw harness function
+    and a plain numpy selection of the requested words on the last axis (so a wrong words selection in the wrapper cannot hide on both sides)."""
+    if scn['mode'] == 'attack':
+        raw = np.empty((pt.shape[0], scn['nguess'], pt.shape[1]), dtype='uint8')
+        for g in range(scn['nguess']):
+            raw[:, g, :] = pt ^ np.uint8(g)
+    else:
+        raw = pt
+    w = scn['words']
+    if w is None:
+        sel = raw
+    elif isinstance(w, int):
+        sel = raw[..., w]
+    elif isinstance(w, list) and w and w[0] == 'slice':
+        sel = raw[..., slice(*w[1:])]
+    elif isinstance(w, list) and w and w[0] == 'ndarray':
+        sel = raw[..., np.array(w[1], dtype='int64')]
+    else:
+        sel = raw[..., list(w)]
+    return model(np.ascontiguousarray(sel))
+
+
 def classes_of(scared):
     return {
         'cpa': (scared.CPAAttack, scared.CPAReverse), 'dpa': (scared.DPAAttack, scared.DPAReverse),
@@ -472,7 +495,7 @@ def _execute(scn, scared):
             ths = make_ths(storage, samples, {'plaintext': pt}, 'set%d' % j)
             container = scared.Container(ths, frame=np_frame(scn['frame']), preprocesses=list(pps))
             E = expected_matrix(scn, samples)
-            D = model(sf(plaintext=pt))
+            D = expected_data(scn, model, pt)
             Hook.sf_calls = 0
             if fault:
                 # scout: the same analysis on the same rows over a separate fake storage, no fault: observes the batch partition run() really
